@@ -46,11 +46,19 @@ def run_shard(shard, tier, seed, wd, res):
                     s.op("%s.%s" % (fam, op), fe(a), fe(b))
                 s.op(fam + ".cmp", fe(a), fe(b))
                 s.op(fam + ".eq", fe(a), fe(b))
+        # the same operations through the Field trait (generic code path), on a thinner grid
+        B2 = B[::3]
+        for a in B2:
+            for b in B2:
+                for op in ("add", "sub", "mul"):
+                    s.op("T%s.%s" % (fam, op), fe(a), fe(b))
     elif part == "grid_un":
         vals = B + [rng.randrange(m) for _ in range(200)]
         for a in vals:
             for op in ("neg", "dbl", "sqr", "inv", "is_zero", "into_repr", "sqrt", "legendre"):
                 s.op("%s.%s" % (fam, op), fe(a))
+            for op in ("neg", "dbl", "sqr", "inv", "is_zero"):
+                s.op("T%s.%s" % (fam, op), fe(a))
             s.op(fam + ".frob", fe(a), V.w(rng.choice([0, 1, 2, 7, (1 << 64) - 1])))
             if fam == "fq":
                 s.op("fq.sgn0", fe(a))
@@ -84,6 +92,7 @@ def run_shard(shard, tier, seed, wd, res):
         for a in RB:
             for op in ("div2", "mul2", "num_bits", "is_zero", "is_odd", "is_even", "write_be", "write_le"):
                 s.op("%s.%s" % (rty, op), rp(a))
+                s.op("T%s.%s" % (rty, op), rp(a))
             by = a.to_bytes(width // 8, "big")
             s.op(rty + ".read_be", V.b(by))
             s.op(rty + ".read_le", V.b(by))
@@ -92,8 +101,10 @@ def run_shard(shard, tier, seed, wd, res):
                 s.op(rty + ".cmp", rp(a), rp(b))
                 if a + b <= top:
                     s.op(rty + ".add_nocarry", rp(a), rp(b))
+                    s.op("T" + rty + ".add_nocarry", rp(a), rp(b))
                 if a >= b:
                     s.op(rty + ".sub_noborrow", rp(a), rp(b))
+                    s.op("T" + rty + ".sub_noborrow", rp(a), rp(b))
         for cut in (0, 1, 7, 8, width // 8 - 1):
             s.op(rty + ".read_be", V.b(bytes(range(cut))))
             s.op(rty + ".read_le", V.b(bytes(range(cut))))
